@@ -236,6 +236,13 @@ def r1_escape_parse(ctx):
                 kind = 'total str method'
             elif r[0] == 'repo' and r[1][0].qualname == 'xdoctest.parser._min_indentation':
                 kind = 'verified helper (min() guarded, see C13.R1)'
+            elif r[0] == 'builtin' and r[1] == 'min' and (any(k.arg == 'default' for k in c.keywords) or
+                                                          any(fa.polarity is True and isinstance(fa.expr, ast.Compare) and 'len(' in fa.text for fa in facts) or
+                                                          any(fa.polarity is True and isinstance(fa.expr, ast.Name) for fa in facts)):
+                kind = 'min() of a sequence known to be non-empty (see C13.R1)'
+            elif isinstance(c.func, ast.Attribute) and c.func.attr in ('findall', 'finditer', 'search', 'match', 'fullmatch', 'split', 'sub') and isinstance(c.func.value, ast.Name) and \
+                    c.func.value.id in f.module.assigns and isinstance(f.module.assigns[c.func.value.id], ast.Call) and ast.unparse(f.module.assigns[c.func.value.id].func) == 're.compile':
+                kind = 'method of a module-level compiled pattern (total on str)'
             elif r[0] == 'repo' and len(r[1]) == 1 and _total_on_str_helper(ctx, r[1][0]):
                 kind = 'helper whose body only applies total string operations'
             elif isinstance(n.ast, ast.Raise) and any(x is c for x in ast.walk(n.ast)):
